@@ -761,15 +761,21 @@ fn leave_child(ordinal: usize) -> ! {
 }
 
 fn seq_real(limit: u64, ops: &[&str]) -> String {
-    seq_real_kind(limit, ops, false)
+    seq_real_kind(limit, ops, 0)
 }
 
 /// `x_case`: an `X` case (fork / wait): the child of the harness additionally gets a pipe on the two descriptors
 /// below the result descriptor, on which its own children report, and a watchdog alarm
-fn seq_real_kind(limit: u64, ops: &[&str], x_case: bool) -> String {
+fn seq_real_kind(limit: u64, ops: &[&str], kind: u8) -> String {
+    let x_case = kind == 1;
     let scratch = Scratch::new();
     let root = scratch.root();
     populate_real(&root, false);
+    if kind == 2 {
+        for (name, target) in LINKS {
+            std::os::unix::fs::symlink(target, root.join(name)).unwrap();
+        }
+    }
     let std_dir = scratch.base.join("std");
     std::fs::create_dir(&std_dir).unwrap();
     for n in ["0", "1", "2"] {
@@ -821,7 +827,9 @@ fn seq_real_kind(limit: u64, ops: &[&str], x_case: bool) -> String {
         let text = guarded(|| {
             // SAFETY: the only RealSystem instance of this (child) process
             let sys = unsafe { RealSystem::new() };
-            let (outs, fds, tail) = if x_case {
+            let (outs, fds, tail) = if kind == 2 {
+                (run_link_ops(&sys, &root_str, ops), String::new(), String::new())
+            } else if x_case {
                 x_real_body(&sys, &root_str, limit, ops)
             } else {
                 run_ops(&sys, &root_str, limit, ops, true, &mut |_, _| None)
@@ -856,6 +864,9 @@ fn seq_real_kind(limit: u64, ops: &[&str], x_case: bool) -> String {
     dump_real_tree(&root, "", &mut lines);
     let tree = join_sorted(lines);
     let parts: Vec<&str> = text.split('\n').collect();
+    if parts.len() == 3 && kind == 2 {
+        return parts[0].to_string();
+    }
     if parts.len() == 3 {
         format!("{} | T {} | F {} | {}", parts[0], tree, parts[1], parts[2])
     } else {
@@ -1183,13 +1194,172 @@ fn run_x_case(case: &str) {
     let ops: Vec<&str> = parts.filter(|s| !s.is_empty()).collect();
     yverif::proto::watch_case(case, 120);
     let v = guarded(|| x_virtual(limit, &ops));
-    let r = seq_real_kind(limit, &ops, true);
+    let r = seq_real_kind(limit, &ops, 1);
     let oracle = if v == r { "ok".to_string() } else { format!("FAIL:real-differs({})", first_difference(&v, &r)) };
     if std::env::var("C19_IMPL").as_deref() == Ok("real") {
         emit(case, &r, "-");
         return;
     }
     emit(case, &v, &oracle);
+}
+
+
+// ------------------------------------------------------------------------------------------
+// link leg: `L <kind>; stat p; lstat p; openr p; openw p; opena p; openc p; openx p; ls p; cd p; cwd` over the
+// tree of the system-call leg plus the links LINKS, which exist beforehand (the traits cannot create one).
+// Kinds: `real` — the observation column is what RealSystem answers, compared strictly with the pivot
+// Kernel/Symlink.lean (ties the link model to the real kernel); `agree` — only stat/lstat, on which the simulator
+// follows links as the kernel does: three-way as usual; `kf-symlink-not-followed` — open/opendir/chdir through a
+// link: the simulator column differs (known finding K9 = D17), the pivot column is still the kernel's answer.
+
+fn run_link_ops<S>(sys: &S, root: &str, ops: &[&str]) -> Vec<String>
+where
+    S: Open + Close + Fstat + Chdir + GetCwd,
+{
+    let cstr = |p: &str| CString::new(p).unwrap();
+    sys.chdir(&cstr(root)).expect("chdir to scratch root");
+    let mut outs = vec![];
+    for op in ops {
+        let w: Vec<&str> = op.split_whitespace().collect();
+        let open_with = |p: &str, access: OfdAccess, flags: enumset::EnumSet<OpenFlag>| -> String {
+            match now(sys.open(&cstr(p), access, flags, Mode::from_bits_retain(0o644))) {
+                Ok(fd) => {
+                    let _ = sys.close(fd);
+                    "ok".to_string()
+                }
+                Err(e) => errno_name(e),
+            }
+        };
+        let kind = |st: Result<S::Stat, Errno>| -> String {
+            use yash_env::system::Stat as _;
+            match st {
+                Ok(st) => match st.r#type() {
+                    FileType::Regular => "=reg".to_string(),
+                    FileType::Directory => "=dir".to_string(),
+                    FileType::Symlink => "=lnk".to_string(),
+                    _ => "=other".to_string(),
+                },
+                Err(e) => errno_name(e),
+            }
+        };
+        let o = match w.as_slice() {
+            ["stat", p] => kind(sys.fstatat(yash_env::system::AT_FDCWD, &cstr(p), true)),
+            ["lstat", p] => kind(sys.fstatat(yash_env::system::AT_FDCWD, &cstr(p), false)),
+            ["openr", p] => open_with(p, OfdAccess::ReadOnly, enumset::EnumSet::empty()),
+            ["openw", p] => open_with(p, OfdAccess::WriteOnly, enumset::EnumSet::empty()),
+            ["opena", p] => open_with(p, OfdAccess::WriteOnly, OpenFlag::Append.into()),
+            ["openc", p] => open_with(p, OfdAccess::WriteOnly, OpenFlag::Create.into()),
+            ["openx", p] => open_with(p, OfdAccess::WriteOnly, OpenFlag::Create | OpenFlag::Exclusive),
+            ["ls", p] => match sys.opendir(&cstr(p)) {
+                Ok(mut dir) => {
+                    let mut names = vec![];
+                    let mut n = 0;
+                    while let Ok(Some(e)) = dir.next() {
+                        let name = String::from_utf8_lossy(e.name.as_bytes()).into_owned();
+                        if name != "." && name != ".." {
+                            names.push(name);
+                        }
+                        n += 1;
+                        if n > 10_000 {
+                            break;
+                        }
+                    }
+                    names.sort();
+                    if names.is_empty() { "=-".to_string() } else { format!("={}", names.join(",")) }
+                }
+                Err(e) => errno_name(e),
+            },
+            ["cd", p] => match sys.chdir(&cstr(p)) {
+                Ok(()) => "ok".to_string(),
+                Err(e) => errno_name(e),
+            },
+            ["cwd"] => match sys.getcwd() {
+                Ok(cwd) => {
+                    let s = String::from_utf8_lossy(cwd.as_unix_str().as_bytes()).into_owned();
+                    match s.strip_prefix(root) {
+                        Some("") => "=/".to_string(),
+                        Some(r) if r.starts_with('/') => format!("={r}"),
+                        _ => "=OUTSIDE".to_string(),
+                    }
+                }
+                Err(e) => errno_name(e),
+            },
+            _ => "?".to_string(),
+        };
+        outs.push(o);
+    }
+    outs
+}
+
+fn link_virtual(ops: &[&str]) -> String {
+    let sys = VirtualSystem::new();
+    populate_virtual(&sys.state, "/w", false);
+    for (name, target) in LINKS {
+        let inode = Inode { body: FileBody::Symlink { target: target.into() }, permissions: Mode::from_bits_retain(0o777) };
+        sys.state.borrow_mut().file_system.save(format!("/w/{name}").as_str(), Rc::new(RefCell::new(inode))).unwrap();
+    }
+    run_link_ops(&sys, "/w", ops).join(" ")
+}
+
+fn run_link_case(case: &str) {
+    let mut parts = case.split(';').map(|s| s.trim());
+    let head = parts.next().unwrap_or("");
+    let ops: Vec<&str> = parts.filter(|s| !s.is_empty()).collect();
+    yverif::proto::watch_case(case, 120);
+    let r = seq_real_kind(64, &ops, 2);
+    if head == "L real" {
+        emit(case, &r, "-");
+        return;
+    }
+    let v = guarded(|| link_virtual(&ops));
+    let oracle = if v == r { "ok".to_string() } else { format!("FAIL:real-differs({})", first_difference(&v, &r)) };
+    emit(case, &v, &oracle);
+}
+
+/// (operations, kind) — physical working directory tracked so that no path leaves the scratch root
+fn gen_link(rng: &mut Rng, kind: &str) -> String {
+    const FROM_ROOT: [&str; 18] = [
+        "lnkf", "lnkd", "lnkbad", "lnkloop", "lnkd/g", "lnkd/dd", "lnkf/", "lnkd/", "lnkbad/", "lnkd/../f1", "lnkd/nofile", "f1", "d1",
+        "nofile2", "lnkf/x", "lnkloop/x", "./lnkd/./g", "lnkd//dd/..",
+    ];
+    const FROM_D1: [&str; 8] = ["../lnkf", "../lnkd/g", "g", "dd", "../lnkbad", "../lnkd", "../lnkloop", "../lnkd/dd/"];
+    const FROM_DD: [&str; 4] = ["../../lnkf", "../../lnkd", "../g", "../../lnkbad"];
+    let mut depth = 0usize; // 0 = root, 1 = d1, 2 = d1/dd
+    let mut ops: Vec<String> = vec![];
+    let n = 3 + rng.below(8);
+    for _ in 0..n {
+        // `agree`: a link only as the FINAL component (or no link at all) — the simulator's `fstatat` follows that
+        // one; a link in any other position is not followed by the simulator in any call (part of K9)
+        let p = match (kind, depth) {
+            ("agree", 0) => *rng.pick(&["lnkf", "lnkd", "lnkbad", "lnkloop", "f1", "d1", "nofile2", "d1/g", "./lnkf", "d1/../lnkd"]),
+            ("agree", 1) => *rng.pick(&["../lnkf", "../lnkbad", "../lnkd", "../lnkloop", "g", "dd"]),
+            ("agree", _) => *rng.pick(&["../../lnkf", "../../lnkd", "../../lnkbad", "../g"]),
+            (_, 0) => *rng.pick(&FROM_ROOT),
+            (_, 1) => *rng.pick(&FROM_D1),
+            _ => *rng.pick(&FROM_DD),
+        };
+        let verbs: &[&str] = match kind {
+            "agree" => &["stat", "lstat"],
+            "kf-symlink-not-followed" => &["openr", "openw", "opena", "ls", "ls", "openr", "stat"],
+            _ => &["stat", "lstat", "openr", "openw", "opena", "ls"],
+        };
+        ops.push(format!("{} {p}", rng.pick(verbs)));
+        if kind != "agree" && rng.chance(1, 4) {
+            let (target, nd) = match depth {
+                0 => *rng.pick(&[("lnkd", 1), ("lnkd/dd", 2), ("d1", 1), ("lnkf", 0), ("lnkbad", 0), ("lnkloop", 0), ("lnkd/", 1)]),
+                1 => *rng.pick(&[("dd", 2), ("..", 0), ("../lnkd/dd", 2), ("../lnkd", 1)]),
+                _ => *rng.pick(&[("..", 1), ("../..", 0), ("../../lnkd", 1)]),
+            };
+            depth = nd;
+            ops.push(format!("cd {target}"));
+            ops.push("cwd".to_string());
+        }
+    }
+    // creating opens last (the cases are evaluated on the initial tree)
+    if kind != "agree" && depth == 0 && rng.chance(1, 2) {
+        ops.push((*rng.pick(&["openx lnkbad", "openx lnkf", "openx lnkd", "openc lnkbad", "openc lnkf", "openx newname", "openc lnkloop"])).to_string());
+    }
+    format!("L {kind}; {}", ops.join("; "))
 }
 
 // ------------------------------------------------------------------------------------------
@@ -2975,7 +3145,7 @@ fn run_shell_case(tag: &str, script: &str) {
 /// (tag, script template); `%` is replaced by a per-instance suffix.  Tag `clean` = no catalogued
 /// divergence is involved.  Only built-ins of the real binary are used (`alias` without aliases is
 /// the do-nothing regular built-in, `typeset -p` the printer).
-const FRAGMENTS: [(&str, &str); 137] = [
+const FRAGMENTS: [(&str, &str); 146] = [
     ("clean", "x%=one; typeset -p x% >o%; x%=two; typeset -p x% >o%; read -r l <o%; typeset -p l"),
     ("clean", "x%=ap; typeset -p x% >>a%; x%=bp; typeset -p x% >>a%; umask >>a%"),
     ("clean", "set -C; alias >f1; s=$?; typeset -p s; typeset -p s >|f1; alias >n%; set +C; read -r l <f1; typeset -p l"),
@@ -3070,6 +3240,17 @@ const FRAGMENTS: [(&str, &str); 137] = [
     ("clean", "trap 'a%=1' USR1; trap 'b%=1' USR2; x%=$(kill -s USR1 $$; kill -s USR2 $$; typeset -p PWD)$( (typeset -p PWD) )$(typeset -p PWD | { read -r l; typeset -p l; }); s=$?; typeset -p s a% b% x%; trap - USR1 USR2"),
     ("clean", "cd lnkd; s=$?; typeset -p s PWD; cd ..; typeset -p PWD; cd lnkloop; s=$?; typeset -p s; cd lnkbad; s=$?; typeset -p s; cd lnkf; s=$?; typeset -p s"),
     ("clean", "for i in lnk* lnkz*; do typeset -p i; done"),
+    // known finding K9 (= D17): the simulator does not follow a symbolic link in open / opendir / chdir (nor in a
+    // non-final component of any path).  Links exist beforehand; one such fragment per script, and it comes last.
+    ("symlink", "read -r a <lnkf; s=$?; typeset -p s a"),
+    ("symlink", "for i in lnkd/*; do typeset -p i; done"),
+    ("symlink", "alias <lnkbad; s=$?; typeset -p s"),
+    ("symlink", "alias >lnkbad; s=$?; typeset -p s; for i in nofil*; do typeset -p i; done"),
+    ("symlink", "cd lnkd; cd -P .; typeset -p PWD; cd .."),
+    ("symlink", "x%=new; typeset -p x% >>lnkf; while read -r l; do typeset -p l; done <f1"),
+    ("symlink", "read -r a <lnkd/g; s=$?; typeset -p s a; alias >lnkd/viaw%; for i in d1/via*; do typeset -p i; done"),
+    ("symlink", "cd -P lnkd/dd; s=$?; typeset -p s PWD"),
+    ("symlink", "alias <lnkloop; s=$?; typeset -p s; alias >lnkloop; s=$?; typeset -p s; for i in lnkloop/*; do typeset -p i; done"),
     ("clean", "v%=xxxxxxxxxxxxxxxx; v%=$v%$v%$v%$v%; v%=$v%$v%$v%$v%; v%=$v%$v%$v%$v%; v%=$v%$v%; typeset -p v% | { read -r l; typeset -p l >big%; }; w%=$(typeset -p v%; typeset -p v%); s=${#w%}; typeset -p s"),
     ("clean", "v%=0123456789abcdef; v%=$v%$v%$v%$v%$v%$v%$v%$v%; v%=$v%$v%$v%$v%$v%$v%$v%$v%; { typeset -p v%; typeset -p v%; typeset -p v%; } | { while read -r l; do n=${#l}; typeset -p n; done; }"),
     ("clean", "(ulimit -n 4; typeset -p PWD | read x; s=$?; typeset -p s); (ulimit -n 3; y=$(typeset -p PWD); s=$?; typeset -p s y); s=$?; typeset -p s"),
@@ -3146,7 +3327,7 @@ fn gen_script(rng: &mut Rng, allow_known: bool) -> (String, String) {
         // `mkparent`, `dotdot`: the catalogued divergences D1, D4.  At most one per script, and it comes last: what
         // follows a divergence would differ as a consequence and hide anything new.  Every other tag is an
         // emphasis tag (former divergences D18-D21, fixed in /repo): an ordinary fragment.
-        let known = tag == "mkparent" || tag == "dotdot";
+        let known = tag == "mkparent" || tag == "dotdot" || tag == "symlink";
         if known {
             if !allow_known || known_used || parts.len() + 1 < n {
                 continue;
@@ -3178,7 +3359,7 @@ fn gen_script(rng: &mut Rng, allow_known: bool) -> (String, String) {
     // a script with a catalogued divergence carries that tag alone (KNOWN_FINDINGS.txt is keyed on it)
     let tag = match tags.first() {
         None => "clean".to_string(),
-        Some(t) if *t == "mkparent" || *t == "dotdot" => t.to_string(),
+        Some(t) if *t == "mkparent" || *t == "dotdot" || *t == "symlink" => t.to_string(),
         Some(_) => tags.join("+"),
     };
     (tag, parts.join("\n"))
@@ -3198,6 +3379,8 @@ fn run_case(case: &str) {
         run_seq_case(case);
     } else if case.starts_with("X ") {
         run_x_case(case);
+    } else if case.starts_with("L ") {
+        run_link_case(case);
     } else {
         // not a case of this harness (e.g. a shrinking attempt that dropped the header): same answer as the
         // Lean driver gives
@@ -3275,6 +3458,14 @@ fn main() {
             run_x_case(&case);
         }
     }
+    let n_link = if !legs.contains('L') && legs != "SXPH" { 0 } else if thorough { 6_000 } else { 90 };
+    for i in 0..n_link {
+        let kind = ["real", "agree", "kf-symlink-not-followed"][i % 3];
+        let case = gen_link(&mut rng, kind);
+        if mine(&mut index) {
+            run_link_case(&case);
+        }
+    }
     let n_proc = if !legs.contains('P') { 0 } else if thorough { 60_000 } else { 600 };
     for i in 0..n_proc {
         let class = match i % 10 {
@@ -3292,6 +3483,13 @@ fn main() {
         let (tag, script) = gen_script(&mut rng, i % 4 == 3);
         if mine(&mut index) {
             run_shell_case(&tag, &script);
+            // a script under the symbolic-link key: everything before the link fragment (which comes last) is run
+            // again as an ordinary case, so that a difference that has nothing to do with links is still reported
+            if tag == "symlink" {
+                if let Some((prefix, _)) = script.rsplit_once('\n') {
+                    run_shell_case("clean", prefix);
+                }
+            }
         }
     }
 }
